@@ -126,7 +126,10 @@ claim('C12',
 claim('C13',
       'Coq theorems: the type text stored per terminal is type_to_string of the declared type and all use sites print it; and the round trip '
       '(Ast/TypeText.v): for every type expression of the Kiki type syntax, nested to any depth, re-tokenising type_to_string ty with a '
-      'maximal-munch lexer gives exactly the identifiers, `::`, `<`, `,`, `>`, `()` of ty in order (argument positions and nesting kept). '
+      'maximal-munch lexer gives exactly the identifiers, `::`, `<`, `,`, `>`, `()` of ty in order (argument positions and nesting kept); and '
+      'the front-end link (Front/TypeTokens.v, Front/TypeSource.v, Lex/IdentShape.v): for every source the model of generate accepts, every '
+      'stored payload type text re-tokenises to a contiguous segment of the token sequence of the SOURCE — the tokens the user wrote after '
+      'the terminal\'s colon (C13_payload_types_read_back_as_the_source_tokens). '
       'Re-tokenisation of every type position of the REAL output against the declaration\'s own tokens is done by the check.',
       COMMON_NOTE, 'Coq proof (nested induction over type expressions; compositional lexing lemma) + re-tokenisation oracle on real output', 'DESIGN.md §5 C13')
 claim('C14',
